@@ -56,7 +56,7 @@ Box.__module__ = __name__
 Box.__qualname__ = "Box"
 
 FIELD_NAMES = ["x", "y", "z", "w", "_p"]
-_TOKENS = [p + n for p in ("v_", "m_") for n in FIELD_NAMES + ["p", "q"]] + [f"t{i}" for i in range(8)]
+_TOKENS = [p + n for p in ("v_", "m_", "w_") for n in FIELD_NAMES + ["p", "q"]] + [f"t{i}" for i in range(8)]
 _TOK2INT = {t: (0 if t == "v_x" else 1000 + i) for i, t in enumerate(_TOKENS)}   # one falsy int
 _INT2TOK = {v: k for k, v in _TOK2INT.items()}
 
@@ -145,6 +145,23 @@ def _user_setstate(self, state):
         object.__setattr__(self, CACHE, None)
 
 
+_CUR = {"fields": {}, "leaf": None, "all": [], "building": True}
+
+
+def _factory_for(name):
+    """default factory of field `name`: while the harness builds an instance it returns the field's original value;
+    whenever it runs at any other time (i.e. during the copy / unpickle) it returns a *different* value (`w_<name>`):
+    a field of the result that was re-derived instead of carried over is thereby visible"""
+    def factory():
+        f = _CUR["fields"].get(name)
+        if f is None:
+            return None
+        if _CUR["building"]:
+            return field_value(f, "v_" + name, _CUR["leaf"], _CUR["all"])
+        return mk_value(f["kind"], "w_" + name)
+    return factory
+
+
 def _api(spec):
     api = spec.get("api", "attr.s")
     return "define" if api == "frozen" and not spec["frozen"] else api      # attrs.frozen only for frozen specs
@@ -197,7 +214,8 @@ def class_source(i, spec, base="object"):
         if spec["slots"]:
             body.append(f"__slots__ = {tuple(spec['plainSlots'])!r}")
         return f"class {name}({base}):\n" + "".join(f"    {ln}\n" for ln in body or ["pass"])
-    fields = [(f["name"], "attr.ib()" if f["init"] else "attr.ib(init=False)") for f in spec["fields"]]
+    fields = [(f["name"], "attr.ib(init=False)" if not f["init"] else
+               (f"attr.ib(factory=_factory_for({f['name']!r}))" if f.get("factory") else "attr.ib()")) for f in spec["fields"]]
     api, front = _api(spec), spec.get("front", "class")
     deco = {"attr.s": "attr.s", "define": "attrs.define", "frozen": "attrs.frozen"}[api]
     if api == "attr.s" and front == "make_class":
@@ -223,16 +241,19 @@ def nested_source(i, spec, base="object"):
     return f"class NS{i}:\n" + "".join("    " + ln + "\n" for ln in src.splitlines())
 
 
-def build_chain(chain, modname):
-    """create the classes of the chain by running their source inside module `modname`; returns (module, [classes])"""
+def build_chain(chain, modname, exc=False):
+    """create the classes of the chain by running their source inside module `modname`; returns (module, [classes]);
+    `exc`: the chain is rooted at `Exception` and every attrs class is built with auto_exc=True"""
     mod = types.ModuleType(modname)
     ns = mod.__dict__
-    ns.update(attr=attr, attrs=attrs, _user_getstate=_user_getstate, _user_setstate=_user_setstate)
+    ns.update(attr=attr, attrs=attrs, _user_getstate=_user_getstate, _user_setstate=_user_setstate, _factory_for=_factory_for)
     classes = []
-    base = "object"
+    base = "Exception" if exc else "object"
     for i, spec in enumerate(chain):
         if spec["kind"] == "attrs":
             ns[f"_kw{i}"] = _deco_kwargs(spec)
+            if exc and (_api(spec) == "attr.s" or spec.get("explicit", True)):
+                ns[f"_kw{i}"]["auto_exc"] = True          # default of define / frozen, opt-in for attr.s
         exec(compile(nested_source(i, spec, base), f"<c10 synthetic {modname}>", "exec"), ns)
         base = f"NS{i}.C{i}" if _is_nested(spec) else f"C{i}"
         classes.append(getattr(ns[f"NS{i}"], f"C{i}") if _is_nested(spec) else ns[f"C{i}"])
@@ -242,10 +263,10 @@ def build_chain(chain, modname):
 _CACHE_CLASSES: dict = {}
 
 
-def get_classes(chain):
+def get_classes(chain, exc=False):
     import json
     key = json.dumps([dict(c, fields=[{k: v for k, v in f.items() if k != "special"} for f in c["fields"]])
-                      for c in chain], sort_keys=True)
+                      for c in chain] + [exc], sort_keys=True)
     got = _CACHE_CLASSES.get(key)
     if got is None:
         if len(_CACHE_CLASSES) > 400:
@@ -253,7 +274,7 @@ def get_classes(chain):
             common.purge_linecache()
         modname = f"c10_synth_{len(_CACHE_CLASSES)}_{abs(hash(key)) % 10**8}"
         try:
-            got = build_chain(chain, modname)
+            got = build_chain(chain, modname, exc)
         except Exception as e:  # noqa: BLE001  -- definition-time rejection
             got = ("deferr", common.exc_kind(e))
         _CACHE_CLASSES[key] = got
@@ -277,12 +298,12 @@ def cur_token(case, name):
     return ("m_" if case.get("mutate") == name else "v_") + name
 
 
-def _construct(leaf, fields, tokens):
-    """Leaf(**init values) then `object.__setattr__` for the listed init=False fields"""
+def _construct(leaf, fields, tokens, pass_all=True):
+    """Leaf(**init values); fields with a default factory are left to it unless `pass_all`"""
     by_name = {a.name: a for a in attr.fields(leaf)}
     kwargs = {}
     for f in fields:
-        if f["init"]:
+        if f["init"] and (pass_all or not f.get("factory")):
             kwargs[by_name[f["name"]].alias] = field_value(f, tokens[f["name"]], leaf, fields)
     return leaf(**kwargs)
 
@@ -310,7 +331,12 @@ def blank_obs(exc=None):
 
 def _history(case, leaf, fields, hashed):
     """construct, assign the init=False fields, optionally hash, optionally change one field"""
-    inst = _construct(leaf, fields, {f["name"]: "v_" + f["name"] for f in fields})
+    _CUR["building"] = True
+    try:
+        inst = _construct(leaf, fields, {f["name"]: "v_" + f["name"] for f in fields},
+                          pass_all=case.get("cfg", {}).get("passArgs", True))
+    finally:
+        _CUR["building"] = False
     if case["assignUnset"]:
         for f in fields:
             if not f["init"]:
@@ -323,7 +349,7 @@ def _history(case, leaf, fields, hashed):
     m = case.get("mutate")
     if m is not None:
         f = next(f for f in fields if f["name"] == m)
-        how = case.get("cfg", {}).get("mutateHow", "assign")
+        how = "inplace" if case.get("mutInPlace") else case.get("cfg", {}).get("mutateHow", "assign")
         old = getattr(inst, m, ABSENT)
         if how == "inplace" and type(old) is Box:
             old.tag = "m_" + m
@@ -337,6 +363,7 @@ def _history(case, leaf, fields, hashed):
 def _run(case, leaf):
     fields = leaf_fields(case["chain"])
     by_name = {f["name"]: f for f in fields}
+    _CUR.update(fields=by_name, leaf=leaf, all=fields, building=False)
     obs = blank_obs()
     real_names = [a.name for a in attr.fields(leaf)]
     if sorted(real_names) != sorted(by_name):
@@ -390,7 +417,7 @@ def _is_frozen(cls):
 
 
 def observe(case):
-    got = get_classes(case["chain"])
+    got = get_classes(case["chain"], bool(case.get("exc")))
     if got[0] == "deferr":
         return blank_obs("other")
     mod, classes = got
